@@ -592,6 +592,7 @@ def check_selection(rep, f):
         rep.check(False, "R18.5", key, "selection by wildcmp", "%s: no append of a bead guarded by wildcmp found" % f.qname, f.loc(), sample=True)
         return
     bad = None
+    fast = {"chars": set(), "eq": []}
     for byname in (True, False):
         decisive = []
         for k, w in enumerate(ws + [None]):
@@ -602,13 +603,25 @@ def check_selection(rep, f):
                         return ("W%d" % ws.index(lf[1]), lf[0] == "!=")
                     if lf[0] in ("==", "!=") and '"name:"' in t_ and sel in t_ and str(getattr(lf[1], "func", "")) in ("substr", "compare") and "wildcmp" not in t_:
                         return ("BYNAME", lf[0] == "==")
+                    fn_ = str(getattr(lf[1], "func", ""))
+                    if lf[0] in ("==", "!=") and fn_ in ("find", "find_first_of", "find_first_not_of") and "npos" in str(lf[2]) and len(lf[1].args) >= 2:
+                        a1 = lf[1].args[1]
+                        txt = str(a1)
+                        if fn_ == "find_first_not_of":
+                            return None
+                        chars = set(chr(int(txt))) if re.match(r"^\d+$", txt) else set(txt.strip('"').strip("'"))
+                        fast["chars"] |= chars
+                        return ("ISPAT", lf[0] == "!=")
+                    if lf[0] in ("==", "!=") and "wildcmp" not in t_ and '"name:"' not in t_ and ("getName(" in t_ or "getType(" in t_):
+                        fast["eq"].append((lf[1], lf[2]))
+                        return ("EQ", lf[0] == "==")
                     if "radius" in t_ and "BCShortestConnection" in t_:
                         far_when_true = (lf[0] in (">", ">=") and "radius" in str(lf[2])) or (lf[0] in ("<", "<=") and "radius" in str(lf[1]))
                         return ("FAR", far_when_true)
                 if str(getattr(lf, "func", "")) == "wildcmp" and lf in ws:
                     return ("W%d" % ws.index(lf), True)
                 return None
-            A = {"BYNAME": byname, "FAR": False}
+            A = {"BYNAME": byname, "FAR": False, "ISPAT": True, "EQ": False}
             A.update({"W%d" % j: (w is not None and j == ws.index(w)) for j in range(len(ws))})
             live = []
             for e in pushes:
@@ -644,4 +657,24 @@ def check_selection(rep, f):
             bad = "for a selection %s the bead is tested with wildcmp(%s, %s); required wildcmp(%s, bead.%s)" % (
                 "'name:<pattern>'" if byname else "without prefix", pat_s[:60], what[:40], "the text after 'name:'" if byname else "the whole selection", "getName()" if byname else "getType()")
             break
+    if bad is None and (fast["chars"] or fast["eq"]):
+        # a literal shortcut: when the pattern is found to contain no wildcard the bead is compared with ==; that agrees with wildcmp exactly when the
+        # test for "contains a wildcard" covers every wildcard character of wildcmp ('*' and '?'), and == compares the same pattern with the same value
+        for byname in (True, False):
+            for eqv in (True, False):
+                A = {"BYNAME": byname, "FAR": False, "ISPAT": False, "EQ": eqv}
+                A.update({"W%d" % j: False for j in range(len(ws))})
+                live = [e for e in pushes if executes(e, None, A, orc, conds)]
+                und = [e for e in pushes if executes(e, None, A, orc, conds) is None]
+                if und:
+                    bad = "cannot decide whether a bead is appended on the literal shortcut (selection %s name:)" % ("with" if byname else "without")
+                elif bool(live) != eqv or len(live) > 1:
+                    bad = "on the literal shortcut a bead is appended %d time(s) when the selection %s the bead's %s" % (len(live), "equals" if eqv else "differs from", "name" if byname else "type")
+                if bad:
+                    break
+            if bad:
+                break
+        if bad is None and not ({"*", "?"} <= fast["chars"]):
+            bad = ("selections are compared literally (==) unless they contain one of %s, but wildcmp's wildcards are '*' and '?': a selection with %s and no other wildcard "
+                   "(e.g. 'C?') selects no bead" % (sorted(fast["chars"]), " / ".join("'%s'" % c_ for c_ in sorted({"*", "?"} - fast["chars"]))))
     rep.check(bad is None, "R18.5", key, "name: -> wildcmp(pattern, getName()); else wildcmp(pattern, getType())", "%s: %s" % (f.qname, bad), f.loc(), sample=True)
